@@ -32,10 +32,15 @@ impl<'a> ExpressionReducer for UndefinedFunctionReducer<'a> {
                     ))
                 } else {
                     // the user_defined_function_linter already ensures that the args are valid
+                    // a zero of the type the name has (an element of an array that was never DIMmed),
+                    // so that the enclosing expression keeps the precision of that type
                     match name.qualifier() {
                         Some(TypeQualifier::DollarString) => {
                             Ok(Expression::StringLiteral(String::new()))
                         }
+                        Some(TypeQualifier::BangSingle) => Ok(Expression::SingleLiteral(0.0)),
+                        Some(TypeQualifier::HashDouble) => Ok(Expression::DoubleLiteral(0.0)),
+                        Some(TypeQualifier::AmpersandLong) => Ok(Expression::LongLiteral(0)),
                         _ => Ok(Expression::IntegerLiteral(0)),
                     }
                 }
